@@ -23,16 +23,3 @@ Definition supported_expected : list (list N) :=
 
 Lemma supported_ok : supported_table = supported_expected.
 Proof. vm_compute. reflexivity. Qed.
-
-(** history runner used by the correspondence (events: re-init or call with
-    the observed inner result) *)
-Inductive event := EvInit (sup : list bool) | EvCall (c : call) (r : inner_res).
-Fixpoint hist_run (s : cstate) (evs : list event) : list (list N) :=
-  match evs with
-  | [] => []
-  | EvInit sup :: r => [] :: hist_run (strm_init sup) r
-  | EvCall c ir :: r =>
-      let o := code_step (fun _ => ir) s c in
-      [ret o; din o; dout o; total_in (st o); total_out (st o)] :: hist_run (st o) r
-  end.
-Definition hist_start : cstate := strm_init [false; false; false; false; false].
